@@ -2,25 +2,24 @@
    dot-separated components).  No proofs here.  The canonicalisation regexes (front end) are NOT
    modelled: component lists are taken from the implementation through the hook. *)
 From Coq Require Import List ZArith NArith Bool.
-From Scalibr Require Import Semantic.Cmp Semantic.LexPad Semantic.Bytes.
+From Scalibr Require Import Semantic.Cmp Semantic.LexPad Semantic.Bytes Semantic.Generated_Tables.
 Import ListNotations.
 Open Scope N_scope.
 
 (* type packagistVersion struct { Original string; Components []string } *)
 Record packagist := { pk_original : bytes; pk_components : list bytes }.
 
-(* weighPackagistBuildCharacter: "RC" -> 3; first matching prefix of dev,a,b,rc,#,p -> its index; else 0 *)
-Definition pk_weight (s : bytes) : nat :=
-  if has_prefix [82; 67] s then 3%nat
-  else if has_prefix [100; 101; 118] s then 0%nat
-  else if has_prefix [97] s then 1%nat
-  else if has_prefix [98] s then 2%nat
-  else if has_prefix [114; 99] s then 3%nat
-  else if has_prefix [35] s then 4%nat
-  else if has_prefix [112] s then 5%nat
-  else 0%nat.
+(* weighPackagistBuildCharacter: the first matching prefix of the generated table
+   ("RC" 3, then dev 0, a 1, b 2, rc 3, # 4, p 5), else the default (0) *)
+Fixpoint first_prefix_weight (tbl : list (bytes * nat)) (s : bytes) : nat :=
+  match tbl with
+  | [] => gen_packagist_default_weight
+  | (p, w) :: r => if has_prefix p s then w else first_prefix_weight r s
+  end.
+Definition pk_weight (s : bytes) : nat := first_prefix_weight gen_packagist_prefix_weights s.
 
-Definition hash_weight : nat := 4%nat.      (* weight of "#", the stand-in for a number *)
+(* weight of "#", the stand-in for a number: computed by the same function, as the Go code does *)
+Definition hash_weight : nat := pk_weight [35].
 
 (* one loop iteration of comparePackagistComponents *)
 Definition pk_elem_cmp (x y : bytes) : comparison :=
